@@ -92,6 +92,7 @@ func c03Cases(c runCfg) ([]*scratch.Pkg, []string, map[string]interface{}) {
 		sp := specFromTemplates(ts)
 		sp.ServerURL = bf.Server
 		sp.ServerVar = bf.Vars
+		sp.MoreServers = bf.More
 		rc := rcase{Pkg: fmt.Sprintf("p%04d", i), Spec: sp, FlagBase: bf.Flag}
 		p := rc.ScratchPkg()
 		pkgs = append(pkgs, p)
